@@ -1055,3 +1055,54 @@ pub fn replay_k(input: &str) -> Result<Option<String>, String> {
     bt.run(&m, &mut rep);
     Ok(rep.k_disagree.first().map(|c| format!("{}: {}", c.kind, c.detail)))
 }
+
+/// K for the pure helpers through the `comrak::verif` pass-throughs: `shortest_unused_sequence` and
+/// `longest_char_sequence` on every string over {'`', 'a'} up to length 11 (exhaustive), on random
+/// literals with runs up to 34 (the repaired 32-cap), and with `~` as the counted character.
+pub fn run_k_helpers(rep: &mut crate::report::Report, seed: u64) {
+    use crate::model::{Batch, Model};
+    let m = Model::from_env();
+    let mut bt = Batch::new();
+    let mut lits: Vec<(Vec<u8>, u8)> = vec![];
+    for len in 0..=11usize {
+        for bits in 0..(1u32 << len) {
+            let lit: Vec<u8> = (0..len).map(|i| if bits >> i & 1 == 1 { b'`' } else { b'a' }).collect();
+            lits.push((lit, b'`'));
+        }
+    }
+    rep.exhaustive_what.push("shortest_unused_sequence / longest_char_sequence on all 4095 strings over {`,a} of length <= 11".into());
+    let mut rng = Rng::new(seed);
+    for _ in 0..3000 {
+        let ch = *rng.pick(&[b'`', b'~', b'`']);
+        let mut lit = vec![];
+        for _ in 0..rng.range(0, 12) {
+            let run = match rng.below(6) {
+                0 => rng.range(28, 34),
+                1 => rng.range(1, 34),
+                _ => rng.range(1, 4),
+            };
+            lit.extend(std::iter::repeat(ch).take(run));
+            lit.extend(std::iter::repeat(*rng.pick(&[b'a', b' ', b'\n', b'~', b'`'])).take(rng.range(0, 2)));
+        }
+        lits.push((lit, ch));
+    }
+    for (lit, ch) in lits {
+        let real_s = catch_unwind(AssertUnwindSafe(|| comrak::verif::shortest_unused_sequence(&lit, ch))).map(|v| v.to_string()).unwrap_or("PANIC".into());
+        let real_l = catch_unwind(AssertUnwindSafe(|| comrak::verif::longest_char_sequence(&lit, ch))).map(|v| v.to_string()).unwrap_or("PANIC".into());
+        let h = crate::util::hex(&lit);
+        let (i1, i2) = (format!("shortest {} {}", h, ch), format!("longest {} {}", h, ch));
+        bt.push(format!("cmshortest {} {}", h, ch), move |resp, rep| {
+            rep.k_evals += 1;
+            if resp != real_s {
+                rep.disagree("shortest-unused-sequence", i1, format!("real {} model {}", real_s, resp));
+            }
+        });
+        bt.push(format!("cmlongest {} {}", h, ch), move |resp, rep| {
+            rep.k_evals += 1;
+            if resp != real_l {
+                rep.disagree("longest-char-sequence", i2, format!("real {} model {}", real_l, resp));
+            }
+        });
+    }
+    bt.run(&m, rep);
+}
